@@ -526,7 +526,9 @@ func uniTwist(r *rand.Rand, s string) string {
 		}
 	}
 	if !done {
-		extra := [][]byte{{0xc3, 0xa9}, {0xc3, 0x89}, {0xff}, {0x80}, {0xc5, 0xbf}, {0xe2, 0x84, 0xaa}, {0xe2, 0x84}}
+		extra := [][]byte{{0xc3, 0xa9}, {0xc3, 0x89}, {0xff}, {0x80}, {0xc5, 0xbf}, {0xe2, 0x84, 0xaa}, {0xe2, 0x84},
+			{0xf0, 0x9f, 0x98, 0x80}, {0xf0, 0x8f, 0x98, 0x80}, {0xf4, 0x90, 0x80, 0x80}, {0xf0, 0x9f, 0x98}, {0xe0, 0xa0, 0x80}, {0xe0, 0x80, 0x80},
+			{0xed, 0xa0, 0x80}, {0xed, 0x9f, 0xbf}, {0xc2}, {0xc1, 0xbf}, {0xf5, 0x80, 0x80, 0x80}}
 		e := hlib.Pick(r, extra)
 		p := r.Intn(len(out) + 1)
 		out = append(out[:p], append(append([]byte(nil), e...), out[p:]...)...)
